@@ -3408,16 +3408,22 @@ impl KotoVm {
                 } else {
                     // The type didn't match, so look for a base value to check
                     let mut value = value.clone();
+                    // Maps that have been visited, a `@base` chain can be cyclic
+                    let mut visited: Vec<KMap> = Vec::new();
 
                     loop {
                         match value {
                             KValue::Map(m) if m.contains_meta_key(&MetaKey::Base) => {
+                                if visited.iter().any(|v| v.is_same_instance(&m)) {
+                                    break;
+                                }
                                 let base = m.get_meta_value(&MetaKey::Base).unwrap();
                                 if base.type_as_string() == expected_type {
                                     return true;
                                 } else {
                                     // The base didn't match the expected type,
                                     // but continue looping to check the base's base.
+                                    visited.push(m);
                                     value = base;
                                 }
                             }
